@@ -27,6 +27,26 @@ ASSUMPTIONS = [
     "below-cut-off peak by the absolute amplitude 1e-14, which only means 'negligible' for records whose amplitudes dwarf it; "
     "with cut_off = 0 nothing is replaced and the series is additionally put into small / large units (x 2^-50 .. 2^40)",
     "b in (0.05, 1], cut_off in [0, 0.1], a_ref and the peak amplitudes within a factor 1e3 of each other so that ratios^(1/b) stay finite",
+    "mid-range clauses: records are noise / band-limited noise / modulated sines x a slow envelope + 0.11 (amplitudes O(1), units 2^-7 .. 2^5 or "
+    "integer counts up to 2^40), b in [0.06, 1] (scalars) / [0.08, 1] (arrays), a_ref in [0.05, 20] x max|x|, n_cyc in [0.5, 50]: all powers stay "
+    "within 1e-200 .. 1e210; the exponent is a python / numpy scalar or an ndarray (a python LIST of exponents is not in the domain: the "
+    "quantifier says 'scalar and array b' and the pinned functions raise TypeError on 1. / list); the power-law functions get ndarrays "
+    "(float64, int64, read-only, strided, negative stride), not lists (abs(list) raises in the pinned tree); the combined amplitude takes a "
+    "scalar b only (its 1-D arithmetic does not broadcast over an array of exponents)",
+    "mid-range whole-output oracle of the peak-only series = the statement applied to every prefix of the record that ends at a reported "
+    "peak (the series up to a turning point does not depend on what follows it): |delta| at a reported peak is the variation since the "
+    "previous reported peak with one sign convention for the whole record (either one is accepted), the pseudo-cyclic entry is "
+    "sign(movement into the peak) * (x[peak] - x[0]); tolerance 0 on exact data, 4*eps*max|x| per entry otherwise (rebasing x - x[0] and "
+    "one difference), 4*eps*max|x|*n_peaks for the sums",
+    "mid-range power-law tolerance: element-wise RELATIVE (1e-10 + 2*eps*n_peaks) of the reference value itself (sequential float64 "
+    "summation of n_peaks positive terms) + the 1e-14-placeholder slack; (n x len(b)) outputs are compared in full against float64 powers / "
+    "long-double sums of the reference peaks (+ 8 eps), a handful of columns against the all-long-double reference; the scaling laws "
+    "A(alpha x), N(alpha x, alpha a_ref) are not re-run at mid-range sizes (they follow from the reference comparison, which is run in "
+    "several units)",
+    "cutoff-tie: a peak exactly AT cut_off*max|x| counts (the statement ignores peaks BELOW the cut-off); asserted only when the product "
+    "cut_off*max|x| is exact in binary (dyadic cut_off = p/2^k <= 0.1 and dyadic amplitudes); with cut_off = 0.1 and amplitudes 10 / 1 the "
+    "double-precision product equals 1.0 bit for bit but the real product of the stored 0.1000000000000000055 does not: ambiguous, bracket-checked; "
+    "b >= 0.25 so that the contribution of the peak at the cut-off stays above the 1e-10 tolerance",
 ]
 EPS = np.finfo(float).eps
 LD = np.longdouble
@@ -365,7 +385,7 @@ def _mr_series(c):
         k = int(other[0]) + 1 if len(other) else n
         a[0] = sg * 1.25 * float(np.max(np.abs(a[1:k + 1])))
     elif a[0] == 0:
-        a[0] = 0.11
+        a[0] = 0.125     # dyadic: data on a grid stay exact
     a = a * 2.0 ** int(c.get("unit", 0))
     if pf.is_constant(a):
         a[-1] += 1.0
@@ -375,7 +395,9 @@ def _mr_series(c):
 def _mr_container(a, how):
     """(argument handed to the library, the float64 values it represents)."""
     if how == "int":
-        ai = np.round(a * 2.0 ** 20).astype(np.int64)
+        # integer counts up to 2^40: no two samples of an excursion share their |value| (no ties), every count exact in float64
+        k = 40 - int(math.ceil(math.log2(float(np.max(np.abs(a))))))
+        ai = np.round(a * 2.0 ** k).astype(np.int64)
         if np.all(ai == ai[0]):
             ai[-1] += 1
         return ai, ai.astype(float)
@@ -798,6 +820,13 @@ def _prod_cases(tier):
         gen.product_pairs(1e5, 5e7, 30, (2000, 2000000), (2, 5000), "c13:nb:t") + gen.product_pairs(1e5, 3e7, 12, (2000, 300000), (2, 2000), "c13:nb"))
     for i, (n, m) in enumerate(pp):
         pairs.append((int(n), int(m), "p%d" % i))
+    # anchors just above the nominal ends of the ranges (a window that opens anywhere below the end is entered):
+    # the number of exponents, the product for A and the product for N
+    m_top = int((2000 if quick else 5000) * (1 + 0.05 * _hu("m-top", tier)))
+    pairs.append((int(_logu(2000, 4000, "m-top-n", tier)), m_top, "mtop"))
+    for tag, total in (("atop", PROD_A_MAX[tier] * (0.94 + 0.05 * _hu("a-top", tier))), ("ntop", PROD_N_MAX[tier] * (0.94 + 0.05 * _hu("n-top", tier)))):
+        m = int(_logu(60, 1500, tag, tier))
+        pairs.append((int(total // m), m, tag))
     cases = []
     for (n, m, tag) in pairs:
         prod = n * m
@@ -1016,3 +1045,113 @@ def mid_range_options(case, ctx):
         _check_a_col(ctx, s, comb, float(b), "combined amplitude of two identical components vs 2^b * single", factor=2.0 ** float(b))
         gmv = np.asarray(ctx.lib(im.calc_cyc_amp_gm_arrays_w_power_law, s["x"], s["x"].copy(), s["ncyc"], b))
         _check_a_col(ctx, s, gmv, float(b), "geometric-mean amplitude of two identical components vs single")
+
+
+# ---------------------------------------------------------------------------
+# 6. cutoff-tie: a switched peak whose amplitude is bit-for-bit EQUAL to cut_off * max|values|.  The statement ignores the peaks
+# BELOW the cut-off, so a peak AT the cut-off counts.  Decided only when the product cut_off * max|x| is exact (dyadic cut_off and
+# amplitudes: 1/16 x 16, 3/32 x 32 ...); with a decimal cut_off (0.1 x 10 == 1.0 in double precision, but 0.1 is really
+# 0.1000000000000000055...) the real-number reading and the floating-point reading differ and the case is only bracket-checked.
+
+from fractions import Fraction as _Fr  # noqa: E402
+
+
+@st.composite
+def _tie_cases(draw):
+    c = {}
+    if draw(st.integers(0, 5)) == 0:
+        c["variant"] = "decimal"
+        top = draw(st.sampled_from([10, 20, 50]))
+        c["top"], c["p"], c["cut"] = top, top // 10, 0.1
+        c["j"] = 0
+    else:
+        c["variant"] = "dyadic"
+        k = draw(st.integers(4, 7))
+        top = 2 ** k
+        pmax = int(0.1 * top)
+        c["top"] = top
+        c["p"] = draw(st.one_of(st.just(pmax), st.integers(1, pmax)))
+        c["cut"] = c["p"] / float(top)          # exact in binary, <= 0.1
+        c["j"] = draw(st.integers(-6, 6))       # unit 2^j (exact)
+    amps = draw(st.lists(st.one_of(st.integers(1, c["top"]), st.integers(1, max(1, 2 * c["p"]))), min_size=3, max_size=14))
+    # make sure the largest amplitude and (at least once) the amplitude AT the cut-off are present
+    amps[draw(st.integers(0, len(amps) - 1))] = c["top"]
+    free = [i for i, v in enumerate(amps) if v != c["top"]] or [0]
+    for _ in range(draw(st.integers(1, 3))):
+        amps[draw(st.sampled_from(free))] = c["p"]
+    if c["top"] not in amps:
+        amps.append(c["top"])
+    c["amps"] = amps
+    c["shape"] = draw(st.sampled_from(["tri", "single", "ramp"]))
+    c["start0"] = draw(st.booleans())
+    c["neg_first"] = draw(st.booleans())
+    c["b"] = draw(st.one_of(st.sampled_from([0.3, 0.34, 0.5, 1.0]), st.floats(0.25, 1.0, allow_nan=False)))
+    c["barr"] = draw(st.booleans())
+    c["aref_rel"] = draw(gen.log_uniform(0.05, 2.0))
+    return c
+
+
+def _tie_record(c):
+    unit = 2.0 ** c["j"]
+    out = [0.0] if c["start0"] else []
+    sgn = -1.0 if c["neg_first"] else 1.0
+    for v in c["amps"]:
+        v = float(v) * unit
+        if c["shape"] == "tri":
+            out += [sgn * v / 2, sgn * v, sgn * v / 2]
+        elif c["shape"] == "ramp":
+            out += [sgn * v / 4, sgn * v / 2, sgn * v, sgn * v / 8]
+        else:
+            out += [sgn * v]
+        sgn = -sgn
+    return np.array(out, dtype=float)
+
+
+@clause(CLAUSES, "cutoff-tie", _tie_cases(), quick=250, thorough=1200,
+        rule="records of 3..14 half cycles (one sample / triangle / ramp per half cycle) with integer amplitudes x 2^j, the largest one a power "
+             "of two 16..128 (or 10, 20, 50 in the decimal variant), at least one half cycle whose amplitude equals cut_off * max|x| bit for bit "
+             "(cut_off = p / 2^k <= 0.1, exact; decimal variant: cut_off = 0.1), others just above and below it; b in [0.25, 1] scalar and "
+             "one-element array; non-trivial = the peaks AT the cut-off contribute more than 1e-6 of the final number of cycles",
+        oracle="reference model: N = running sum over the reference switched peaks with |p| >= cut_off * max|x| (a peak AT the cut-off is not "
+               "below it), whole series, 1e-10 relative + the 1e-14 placeholder slack; the decimal variant (product not exact) is ambiguous and "
+               "bracket-checked (either reading)",
+        require={"exact-tie": 0.5, "peaks-below-cut": 0.3}, min_nontrivial=0.4)
+def cutoff_tie(case, ctx):
+    a = _tie_record(case)
+    n = len(a)
+    cut = float(case["cut"])
+    b = float(case["b"])
+    amax = float(np.max(np.abs(a)))
+    thr = cut * amax
+    exact = _Fr(cut) * _Fr(amax) == _Fr(thr)
+    peaks = ref.switched_peaks(a)
+    pv = np.abs(a[peaks]).astype(LD)
+    at = np.asarray(pv == LD(thr))
+    if not np.any(at):
+        ctx.cls("no-tie")      # the decimal product did not land on a peak value bit for bit: nothing to decide
+    aref = case["aref_rel"] * amax
+    contrib = LD(0.5) * (pv / LD(aref)) ** (LD(1) / LD(b))
+    keep_incl = np.asarray(pv >= LD(thr))       # statement: only the peaks BELOW the cut-off are ignored
+    keep_strict = np.asarray(pv > LD(thr))
+    n_incl = _ref_series(a, peaks, np.where(keep_incl, contrib, LD(0)))
+    n_strict = _ref_series(a, peaks, np.where(keep_strict, contrib, LD(0)))
+    share = float((n_incl[-1] - n_strict[-1]) / n_incl[-1]) if n_incl[-1] > 0 else 0.0
+    ctx.cls("exact-tie" if exact and np.any(at) else ("inexact-tie" if np.any(at) else None), "shape=" + case["shape"],
+            "peaks-below-cut" if np.any(pv < LD(thr)) else None, "start0" if case["start0"] else None,
+            "b=array" if case["barr"] else "b=scalar")
+    ctx.nt(exact and share > 1e-6)
+    barg = np.array([b]) if case["barr"] else b
+    ns = np.asarray(ctx.lib(im.calc_n_cyc_array_w_power_law, a, aref, barg, cut_off=cut))
+    ctx.check(ns.shape[0] == n, "cycle series has length %s, record %d" % (ns.shape, n))
+    ns1 = ns.reshape(n, -1)[:, 0]
+    ctx.finite(ns1, "cycle series")
+    slack = len(peaks) * 0.5 * (1e-14 / aref) ** (1.0 / b)
+    tol = 1e-10 * float(n_incl[-1]) + slack + core.TINY
+    if exact:
+        ctx.close(ns1, n_incl, tol, "equivalent number of cycles with peak(s) exactly AT cut_off*max|x| = %r (cut_off=%r, b=%r): a peak at "
+                                    "the cut-off is not below it" % (thr, cut, b))
+    else:
+        ctx.amb()
+        d1 = float(np.max(np.abs(ns1.astype(LD) - n_incl)))
+        d2 = float(np.max(np.abs(ns1.astype(LD) - n_strict)))
+        ctx.check(min(d1, d2) <= tol, "equivalent number of cycles matches neither reading of the cut-off (%r, %r away; cut_off=%r)" % (d1, d2, cut))
